@@ -21,7 +21,20 @@ REQUIRED_THEOREMS = [
     "TapkeeVerif.Connected.result_order_independent",
     "TapkeeVerif.Connected.C03_geodesic_matrix_finite",
     "TapkeeVerif.Connected.stronglyConnected_sound",
+    "TapkeeVerif.Connected.exactKnn_unique_of_tieFree",
+    "TapkeeVerif.Connected.reach_from_first_alone_refuted",
+    "TapkeeVerif.Connected.findNeighbors_unchecked",
+    "TapkeeVerif.Connected.reachesAll_iff_reach",
+    "TapkeeVerif.Connected.stronglyConnected_order_independent",
 ]
+
+
+def translate(ctx):
+    """Props.C03 imports Props.C04 (C03_geodesic_matrix_finite joins StronglyConnected to C04's Dijkstra model), whose
+    closure contains the generated Gen/IsomapSteps.lean: regenerate it from the source as C04 does, so that C03 run alone
+    never builds against a stale table"""
+    from checks import c04
+    c04.translate(ctx)
 METHODS = ["brute", "vptree", "covertree"]
 # the Dijkstra of routines/isomap.hpp opens an OpenMP region per call; thread count is C15's subject, not C03's
 OMP1 = {"OMP_NUM_THREADS": "1"}
@@ -311,6 +324,9 @@ def fn_verdict(c, io, mf):
     if c.get("check", "1") == "1" and (f.get("fin") == "0" or (mf.get("sc") == "0" and mf.get("uni") == "1")):
         return ("fail", "conn-dir:fn", "find_neighbors(.., check_connectivity=true) returns a %s-neighbour graph that it reports as "
                 "connected, but compute_shortest_distances_matrix on it has unreachable pairs (infinite geodesics)" % f.get("kfinal", "?"))
+    if mf.get("fexact") not in (None, "ok"):
+        return ("fail", "fn:final-lists-not-exact:%s" % method, "find_neighbors(%s, .., check_connectivity) returns lists that are not the "
+                "exact %s-NN lists of the samples (sample %s)" % (method, f.get("kfinal", "?"), mf["fexact"][4:]))
     if mf.get("exact") != "ok":
         return ("skip", "c02-inexact-lists", "")
     if mf["mtried"] in ("oob", "fuel"):
@@ -318,6 +334,10 @@ def fn_verdict(c, io, mf):
     if mf.get("same") != "1":
         return ("broken", "corr:find_neighbors", "recursion of find_neighbors: model tried k=%s (final %s), implementation returned "
                 "lists of k=%s (or different lists for that k)" % (mf.get("mtried"), mf.get("mk"), f.get("kfinal")))
+    if str(mf.get("seq", "-")).startswith("diff"):
+        return ("broken", "corr:find_neighbors-rounds", "recursion of find_neighbors: the implementation performed %s searches "
+                "(counted through the distance callback: N evaluations d(x,x) per search), the model tried k=%s"
+                % (mf["seq"][5:], mf.get("mtried")))
     if f.get("fin") in ("0", "1") and f["fin"] != mf.get("sc"):
         return ("broken", "corr:dijkstra-vs-stronglyConnected", "finiteness of geodesics (%s) differs from stronglyConnected (%s)"
                 % (f["fin"], mf.get("sc")))
@@ -348,6 +368,14 @@ def run_cases_failfast(ctx, binary, lines, max_aborts=3):
         if n == len(todo):
             break
         summ = ctx.sanitizer_summary(err) or ("timeout" if rc in (-999, -14) else "crash:rc=%d" % rc)
+        if summ == "timeout":
+            # a watchdog hit may be machine load: the case is re-run alone once before it is believed
+            rc2, out2, err2 = ctx.run_impl(binary, [todo[n]], env=OMP1, timeout=600)
+            if rc2 == 0 and len(out2) == 1:
+                ctx.stat("fn:watchdog-hit-passed-on-solo-retry")
+                outs.append(out2[0])
+                todo = todo[n + 1:]
+                continue
         outs.append("abort:" + summ)
         ctx.last_abort_stderr = err[-4000:]
         aborts += 1
@@ -365,7 +393,8 @@ def run_fn(ctx, binary, cases):
             dl.append(l)
         else:
             f = fields_of(io)
-            dl.append(l + " ids=%s kfinal=%s levels=%s" % (f.get("ids", ""), f.get("kfinal", ""), f.get("levels", "")))
+            dl.append(l + " ids=%s kfinal=%s rounds=%s levels=%s" % (f.get("ids", ""), f.get("kfinal", ""), f.get("rounds", "-"),
+                                                                       f.get("levels", "")))
     rc, model, err = ctx.run_model("model_c03", dl, timeout=3000)
     if rc != 0 or len(model) != len(lines):
         ctx.broken("model-driver", "model_c03", "model driver failed: rc=%s %s" % (rc, err[-300:]))
@@ -416,6 +445,10 @@ def judge_fn(ctx, binary, groups, label):
             tried = f.get("kfinal", "")
             if tried and tried.isdigit() and int(tried) > min(int(c["k"]), n - 1):
                 ctx.stat("fn:k-was-raised")
+            if mf.get("seq") == "ok":
+                ctx.stat("fn:search-rounds-observed-and-equal-to-model")
+            elif mf.get("seq") == "-":
+                ctx.stat("fn:search-rounds-not-observable(kernel callback)")
             if v is None:
                 ctx.stat("fn:agree")
                 finals.append((tried, f.get("fin"), c, line))
